@@ -357,6 +357,9 @@ def gen_model(rng, mm, fmt='xmi', size=None, odd_ids=False):
     # the build script of every object
     used_ids = set()
     idpool = list(ID_VALUES)
+    if rng.random() < 0.5:
+        # id values that look like qualified names over DECLARED namespace prefixes (the package's own, xmi, xsi)
+        idpool += [f"{mm['nsPrefix']}:q{j}" for j in range(3)] + ['xmi:peake', 'xsi:w', f"{mm['nsPrefix']}:Type"]
     rng.shuffle(idpool)
     taken11 = {}            # (fname) -> set of targets already taken by a to-one opposite
     for oid in order:
